@@ -8,7 +8,9 @@ import (
 	"crypto/x509"
 	"crypto/x509/pkix"
 	"encoding/pem"
+	"errors"
 	"fmt"
+	"io"
 	"math/big"
 	"net"
 	"os"
@@ -332,6 +334,16 @@ func (p *pki) shouldAccept(c TLSCase, chain []*x509.Certificate) (bool, string) 
 	return true, "chains to the trusted CA and matches the allowed name"
 }
 
+// transportFailure: the handshake error says nothing about the certificate - the pipe was closed under the server (its peer gave up: a
+// client whose own 10 s deadline expired closes its end) or a deadline expired.  A refusal is a TLS-level error (alert, verification error).
+func transportFailure(err error) bool {
+	var ne net.Error
+	if errors.As(err, &ne) && ne.Timeout() {
+		return true
+	}
+	return errors.Is(err, io.ErrClosedPipe) || errors.Is(err, os.ErrDeadlineExceeded) || errors.Is(err, io.EOF) || errors.Is(err, io.ErrUnexpectedEOF)
+}
+
 func runTLS(c TLSCase, o *vt.Obs) *vt.Failure {
 	p, err := getPKI()
 	if err != nil {
@@ -377,6 +389,11 @@ func runTLS(c TLSCase, o *vt.Obs) *vt.Failure {
 	_ = sc.Close()
 	<-done
 	got := herr == nil
+	if herr != nil && transportFailure(herr) {
+		// the in-memory connection itself failed (deadline of a saturated machine, the peer gone): not the server's verdict on the certificate
+		vt.Inconclusive(fmt.Sprintf("C17 handshake over the in-memory pipe failed without a verdict: %v", herr))
+		return nil
+	}
 	if got != want {
 		if got {
 			return vt.Failf(prop+"/certificate-wrongly-accepted", 0, "server (allowed CN %q, allowed hostname %q, client-cert-auth %v) accepted a client certificate that must be refused: %s\ncertificate: %+v", c.AllowedCN, c.AllowedHostname, c.ClientCertAuth, why, c.Cert)
